@@ -515,7 +515,8 @@ class Optic:
             Optic: The optical system.
         """
         optic = cls()
-        optic.aperture = Aperture.from_dict(data['aperture'])
+        if data['aperture'] is not None:
+            optic.aperture = Aperture.from_dict(data['aperture'])
         optic.surface_group = SurfaceGroup.from_dict(data['surface_group'])
         optic.fields = FieldGroup.from_dict(data['fields'])
         optic.wavelengths = WavelengthGroup.from_dict(data['wavelengths'])
